@@ -52,8 +52,23 @@ pub fn handle_replace(
         enable_plural_variants,
     };
 
+    // create_simple_plan records the entries below the first search root relative to that root, while
+    // apply and the preview resolve relative paths against the current directory. With explicit search
+    // paths, hand them over as absolute paths and re-base what comes back relative on the first root:
+    // everything else the walk yields is then absolute already.
+    let paths: Vec<PathBuf> = if paths.is_empty() {
+        paths
+    } else {
+        let cwd = std::env::current_dir().context("Failed to get current directory")?;
+        paths
+            .into_iter()
+            .map(|p| if p.is_absolute() { p } else { cwd.join(p) })
+            .collect()
+    };
+    let first_root = paths.first().cloned();
+
     // Create the plan using simple regex/literal replacement
-    let plan = if no_regex {
+    let mut plan = if no_regex {
         // Literal string replacement
         create_simple_plan(pattern, replacement, paths, &options, false)?
     } else {
@@ -63,6 +78,22 @@ pub fn handle_replace(
         // Create plan with regex replacement
         create_simple_plan(pattern, replacement, paths, &options, true)?
     };
+
+    if let Some(root) = &first_root {
+        for hunk in &mut plan.matches {
+            if hunk.file.is_relative() {
+                hunk.file = root.join(&hunk.file);
+            }
+        }
+        for rename in &mut plan.paths {
+            if rename.path.is_relative() {
+                rename.path = root.join(&rename.path);
+            }
+            if rename.new_path.is_relative() {
+                rename.new_path = root.join(&rename.new_path);
+            }
+        }
+    }
 
     // Check for large changes
     if !large && !yes {
